@@ -256,6 +256,47 @@ fn main() {
             let mut rng = rng::Rng::new(o.seed);
             let cases = streams::cache_cases(&mut rng, o.tier == "thorough");
             run_rs_stream(&o, &mut rep, "cache-histories", "counting / wrapping / identity user functions, cacheable or not: every ordered pair of 18 equal-or-similar arguments (i1 \"1\" \"i1\" [i1] f1 d1 d1.0 d1.00 f0 f-0 none NaN …) over two rules and 3 consecutive evaluations; every subset of failing invocation indices (32) x 4 call sequences x 3 rule splits; 40 / 200 / 1000 distinct arguments each called twice in opposite orders (in one rule, and one call per rule over 400 rules), 300-element and 900-byte arguments differing only at the end; random histories; compared on the invocation log and all outcomes", false, cases, "full");
+            // "a function that declares itself non-cacheable is invoked on every call": what counts is what the function declares
+            // when it is called.  Two rulesets that differ only in WHEN the function started to declare what it declares now
+            // (before registration / after the ruleset was built) must invoke it identically.
+            {
+                use evalrun::*;
+                use gen::*;
+                let arg = |k: i128| reval::expr::Expr::Value(reval::value::Value::Int(k));
+                let rule_sets: Vec<Vec<reval::expr::Expr>> = vec![
+                    vec![call("p", arg(1)), call("p", arg(1)), codec::mk_bin("add", call("p", arg(1)), call("p", arg(1)))],
+                    vec![reval::expr::Expr::Vec(vec![call("p", arg(1)), call("q", arg(1)), call("p", arg(1)), call("p", arg(2)), call("p", arg(1)), call("q", arg(1))])],
+                    vec![iff(call("q", arg(1)), call("p", arg(1)), call("p", arg(2))), call("p", arg(1)), call("q", arg(1))],
+                ];
+                let mut sr = report::StreamReport::new("declared-when-called", "3 rulesets x both declarations x (declared before registration | changed after build): the invocation log of an evaluation depends on what the function declares when it is called", true);
+                for (ri, rules) in rule_sets.iter().enumerate() {
+                    for now_cacheable in [false, true] {
+                        let run = |registered_as: bool, flip: bool| -> Result<String, String> {
+                            let shared = std::sync::Arc::new(Shared::default());
+                            let env = EnvSpec { syms: vec![], fns: vec![FnSpec::new("p", registered_as, FnKind::Count), FnSpec::new("q", registered_as, FnKind::Const(reval::value::Value::Bool(true)))] };
+                            let rs = build_ruleset(rules, &env, &shared).map_err(|e| format!("{e}"))?;
+                            shared.flip.store(flip, std::sync::atomic::Ordering::SeqCst);
+                            let mut out = String::new();
+                            for _ in 0..2 {
+                                shared.log.lock().unwrap().clear();
+                                let os = block_on(rs.evaluate_value(&reval::value::Value::None)).map_err(|e| format!("{e}"))?;
+                                out.push_str(&format!("(outcomes{}) log {:?} | ", os.iter().map(|o| format!(" {}", codec::enc_result(&o.value))).collect::<String>(), shared.log.lock().unwrap().iter().map(|(n, v, _)| format!("{}({})", n, codec::enc_value(v))).collect::<Vec<_>>()));
+                            }
+                            Ok(out)
+                        };
+                        let r = std::panic::catch_unwind(std::panic::AssertUnwindSafe(|| (run(now_cacheable, false), run(!now_cacheable, true))));
+                        sr.count(&format!("{} {}", ri, now_cacheable), true);
+                        let (a, b) = match r {
+                            Ok((a, b)) => (a.unwrap_or_else(|e| e), b.unwrap_or_else(|e| e)),
+                            Err(p) => ("".to_string(), format!("PANIC {}", panic_msg(p))),
+                        };
+                        if a != b {
+                            rep.add_finding(report::Finding { kind: "impl-violates-property".into(), stream: "declared-when-called".into(), case: format!("declared\t{}\t{}", ri, now_cacheable), human: format!("rules [{}]; the functions declare cacheable = {} when called, but declared {} when they were registered", rules.iter().map(|e| e.to_string()).collect::<Vec<_>>().join(" ; "), now_cacheable, !now_cacheable), impl_out: b, model_out: a, predicate: "a function that declares itself non-cacheable (cacheable) is invoked on every call (at most once per argument): the declaration that counts is the one it makes when it is called".into(), signature: "C11 declared-when-called".into() });
+                        }
+                    }
+                }
+                rep.streams.push(sr);
+            }
             // "the cache is per evaluation": also after an evaluation that never completed.  The abandonment histories of the
             // C12 executor (an evaluation dropped after j polls — with a cacheable call already completed —, then fresh
             // evaluations whose own invocation log must be the one of an evaluation run alone) judged for C11
